@@ -282,37 +282,3 @@ harness!(segment_arrays, 9, {
         assert!(sa.range() == Some(vals[0]..=vals[m - 1]));
     }
 });
-
-use crate::rowseq::RowIdSequence;
-
-fn any_range() -> core::ops::Range<u64> {
-    let (s, e): (u64, u64) = (vnd::any(), vnd::any());
-    vnd::assume(s <= e && e - s <= 1 << 32);
-    s..e
-}
-
-// @harness props=C34 tier=thorough timeout=3600 desc="(attempted; did not finish symbolic execution in 900 s at design time) RowIdSequence::extend: the result lists the ids of self followed by the ids of other, in that order (adjacent trailing/leading ranges may be fused, never reordered); len adds up"
-harness!(sequence_extend, 8, {
-    let (r1, r2, r3) = (any_range(), any_range(), any_range());
-    let (vals, n) = any_values();
-    vnd::assume(n >= 1);
-    let mut a = RowIdSequence::new();
-    if vnd::any::<bool>() {
-        a.0.push(U64Segment::Array(EncodedU64Array::from(to_vec(&vals, n))));
-    }
-    a.0.push(U64Segment::Range(r1.clone()));
-    let mut b = RowIdSequence::new();
-    b.0.push(U64Segment::Range(r2.clone()));
-    if vnd::any::<bool>() {
-        b.0.push(U64Segment::Range(r3.clone()));
-    }
-    let (la, lb) = (a.len(), b.len());
-    let i: usize = vnd::any();
-    let expect = if (i as u64) < la { a.get(i) } else { b.get(i - la as usize) };
-    let mut c = a.clone();
-    c.extend(b.clone());
-    vnd::cover!(r1.end == r2.start && r1.start < r1.end && r2.start < r2.end, "adjacent ranges get fused");
-    vnd::cover!(r2.end == r1.start && r1.start < r1.end && r2.start < r2.end, "descending-adjacent ranges");
-    assert!(c.len() == la + lb);
-    assert!(c.get(i) == expect);
-});
